@@ -90,6 +90,13 @@ def to_coq(e, names=None):
     if t == "objcomp":
         sp = "; ".join(f"CFor {names.id(x[1])}%N {r(x[2])}" if x[0] == "for" else f"CIf {r(x[1])}" for x in e[3])
         return f"(EObjComp {r(e[1])} {r(e[2])} [{sp}])"
+    if t in ("stdmap", "stdfilter"):
+        # std.map(f, arr) = [f(x) for x in arr];  std.filter(f, arr) = [x for x in arr if f(x)]
+        # (the function value is bound once, as an argument is)
+        fv, xv = f"__f{id(e) % 100000}", f"__x{id(e) % 100000}"
+        call = ("app", ("var", fv), [("var", xv)], [], False)
+        comp = ("comp", call, [("for", xv, e[2])]) if t == "stdmap" else ("comp", ("var", xv), [("for", xv, e[2]), ("if", call)])
+        return r(("local", [(fv, e[1])], comp))
     if t == "error":
         return f"(EError {r(e[1])})"
     if t == "assert":
@@ -175,6 +182,10 @@ def to_js(e, named_calls=False):
     if t == "objcomp":
         sp = " ".join(f"for {x[1]} in {p(x[2])}" if x[0] == "for" else f"if {p(x[1])}" for x in e[3])
         return f"{{[{r(e[1])}]: {r(e[2])} {sp}}}"
+    if t == "stdmap":
+        return f"std.map({r(e[1])}, {r(e[2])})"
+    if t == "stdfilter":
+        return f"std.filter({r(e[1])}, {r(e[2])})"
     if t == "error":
         return f"error {p(e[1])}"
     if t == "assert":
@@ -261,7 +272,7 @@ class ProgGen:
         if ty == BOOL:
             return ("bool", r.chance(0.5))
         if ty == STR:
-            return ("str", r.choice(["", "a", "b", "ab", "ba", "x y", "é", "zz", "A"]))
+            return ("str", r.choice(["", "a", "b", "ab", "ba", "x y", "é", "zz", "A", "héllo", "日本語", "a😀b", "naïve"]))
         if ty[0] == "arr":
             return ("arr", [self.lit(ty[1]) for _ in range(r.below(4))])
         if ty[0] == "obj":
@@ -512,8 +523,13 @@ class ProgGen:
                 return ("bin", "+", sub(STR), sub(r.choice([NUM, BOOL])))
             if k < 48:
                 return ("bin", "+", sub(NUM), sub(STR))
-            if k < 60:
+            if k < 52:
                 return ("slice", sub(STR), self.slice_part(), self.slice_part(), self.step_part())
+            if k < 60:
+                # code-point (not byte) positions: negative and out-of-range bounds on non-ASCII text
+                base = ("bin", "+", ("str", r.choice(["héllo", "日本語", "a😀b", "naïve café", "ß"])), sub(STR))
+                neg = lambda: None if r.chance(0.3) else ("num", r.choice([-1, -2, -3, -4, -6, 1, 2]))  # noqa
+                return ("slice", base, neg(), neg(), self.step_part())
             if k < 70:
                 return ("type", sub(r.choice([NUM, BOOL, STR, T_arr(NUM)])))
             if k < 76:
@@ -685,6 +701,18 @@ class ProgGen:
             od = ("fun", [(a, None)], ("if", ("bin", "<=", ("var", a), ("num", 0)), ("num", 0),
                                        ("app", ("var", f), [("bin", "-", ("var", a), ("num", 1))], [], False)))
             return ("local", [(f, ev), (g, od)], ("app", ("var", f), [("num", r.below(7))], [], r.chance(0.3)))
+        if k == 4 and r.chance(0.6):
+            # a Jsonnet function handed to a library function as a callback; its defaulted parameters refer
+            # to each other and shadow outer locals of the same name
+            x, kk, rr = self.fresh("x"), self.fresh("kk"), self.fresh("rr")
+            arr = ("arr", [("num", 1), ("num", 2), ("num", 3)])
+            cb = ("fun", [(x, None), (kk, ("num", 2)), (rr, ("bin", op, ("var", x), ("var", kk)))], ("var", rr))
+            inner = ("index", ("stdmap", cb, arr), ("num", r.below(3)))
+            if r.chance(0.5):
+                pred = ("fun", [(x, None), (kk, ("num", 2)), (rr, ("bin", ">=", ("var", x), ("var", kk)))], ("var", rr))
+                inner = ("len", ("stdfilter", pred, arr))
+            self.note("callback")
+            return ("local", [(kk, ("num", 100)), (rr, ("num", 7))], inner)
         # a function stored in an object field / method using self
         o = self.fresh("o")
         obj = ("obj", [], [], [(("str", "k"), ":", False, sub()),
@@ -814,6 +842,8 @@ def instrument(e, counter=None):
             return ("obj", [(n, w(b)) for n, b in x[1]],
                     [(w(c), None if m is None else w(m)) for c, m in x[2]],
                     [(n, v, p, w(b)) for n, v, p, b in x[3]])
+        if t in ("stdmap", "stdfilter"):
+            return (t, w(x[1]), w(x[2]))
         if t == "objcomp":
             return ("objcomp", w(x[1]), w(x[2]),
                     [("for", y[1], w(y[2])) if y[0] == "for" else ("if", w(y[1])) for y in x[3]])
